@@ -11,7 +11,16 @@ import (
 )
 
 func init() {
-	register("C04", "Decides the structure that confines a canary to status.canary.nodes: (R1) the role of a replica set is `canary` only with Status.Canary != nil ∧ Status.Canary.ReplicaSet == name ∧ Status.ActiveReplicaSet != name and `active` only with ActiveReplicaSet == name; every role the role function can return dispatches to a strategy function, and a strategy function that plans pod creations/deletions is called only under role active or canary; (R2) on every path of the parameter builder on which the replica set is active while a canary is recorded, the mapping function receives Status.Canary.Nodes as its ignore list, and the mapping function creates no per-node entry and cleans up no pod for an ignored node; (R3) the active planner never sees canary nodes (by R2 on all paths, or by a removal loop over Parameters.CanaryNodes that dominates every other use of the per-node map); (R4) in the canary role every creation candidate is NodeByName[n] for n ranging over Parameters.CanaryNodes, Parameters.CanaryNodes is Status.Canary.Nodes and the node index maps a name to the node of that name; (R5) the selection loop adds a new node only while len(list) < resolved replicas and leaves the loop or re-checks the bound after every addition; (R7) the bound of R5 is the same number everywhere: every resolution of Strategy.Canary.Replicas reachable from the ExtendedDaemonSet reconciler rounds up and uses Status.Desired of the same reconciled ExtendedDaemonSet as total; (R6) the canary label is added only to the pod of a canary node whose replica-set label names this replica set, and removed only from pods listed with {canary label, replica-set label == this replica set} by a function that runs in the active role.", runC04)
+	register("C04", "Decides the structure that confines a canary to status.canary.nodes: (R1) the role of a replica set is `canary` only with Status.Canary != nil ∧ Status.Canary.ReplicaSet == name ∧ Status.ActiveReplicaSet != name and `active` only with ActiveReplicaSet == name; every role the role function can return dispatches to a strategy function, and a strategy function that plans pod creations/deletions is called only under role active or canary; (R2) on every path of the parameter builder on which the replica set is active while a canary is recorded, the mapping function receives Status.Canary.Nodes as its ignore list, and the mapping function creates no per-node entry and cleans up no pod for an ignored node; (R3) the active planner never sees canary nodes (by R2 on all paths, or by a removal loop over Parameters.CanaryNodes that dominates every other use of the per-node map); (R4) in the canary role every creation candidate is NodeByName[n] for n ranging over Parameters.CanaryNodes, Parameters.CanaryNodes is Status.Canary.Nodes and the node index maps a name to the node of that name; (R5) the selection loop adds a new node only while len(list) < resolved replicas and leaves the loop or re-checks the bound after every addition; (R7) the bound of R5 is the same number everywhere: every resolution of Strategy.Canary.Replicas reachable from the ExtendedDaemonSet reconciler rounds up and uses Status.Desired of the same reconciled ExtendedDaemonSet as total; (R9) when the canary-label clean-up is limited to a time window, the window's origin is read from the replica set's Active condition and every dispatch in a non-active role records Active=False before or inside the strategy function; (R10) every non-error return of the canary-role strategy function is dominated by the pass that adds the canary label; (R6) the canary label is added only to the pod of a canary node whose replica-set label names this replica set, and removed only from pods listed with {canary label, replica-set label == this replica set} by a function that runs in the active role.", runC04)
+}
+
+// c04Site is one call of a strategy function from the replica-set reconciler.
+type c04Site struct {
+	fn     *ssa.Function
+	call   ssa.CallInstruction
+	cal    *ssa.Function
+	guard  string
+	params ssa.Value
 }
 
 type c04Ctx struct {
@@ -24,6 +33,9 @@ type c04Ctx struct {
 	guardOf   map[*ssa.Function][]string // strategy entry function -> role constants guarding its calls
 	r2AllOK   bool
 	ignoreIdx int
+	sites     []c04Site             // dispatch sites of the strategy functions
+	addSites  []ssa.CallInstruction // calls that add the canary label
+	delSites  []ssa.CallInstruction // calls that remove the canary label
 }
 
 func runC04(r *Run) {
@@ -33,6 +45,8 @@ func runC04(r *Run) {
 	r.RuleDoc("C04.R4", "canary role: creation candidates are NodeByName[n], n ∈ Parameters.CanaryNodes == Status.Canary.Nodes")
 	r.RuleDoc("C04.R5", "node selection never adds a new node at or beyond the resolved replicas")
 	r.RuleDoc("C04.R7", "every resolution of Strategy.Canary.Replicas (the bound of R5 and the caller's count test) rounds up and uses Status.Desired of the same ExtendedDaemonSet")
+	r.RuleDoc("C04.R9", "the time window of the canary-label clean-up starts at the activation of the replica set: its origin is read from the Active condition, and every non-active dispatch records Active=False")
+	r.RuleDoc("C04.R10", "in the canary role the canary-label pass is reached on every return path of the strategy function (whatever the pause/failed state)")
 	r.RuleDoc("C04.R6", "canary label added only to this replica set's pod on a canary node; removed only from pods listed by {canary label, this replica set} in the active role")
 	r.Floor("C04.R1", 8)
 	r.Floor("C04.R2", 4)
@@ -40,6 +54,8 @@ func runC04(r *Run) {
 	r.Floor("C04.R4", 3)
 	r.Floor("C04.R5", 2)
 	r.Floor("C04.R7", 4)
+	r.Floor("C04.R9", 1)
+	r.Floor("C04.R10", 1)
 	r.Floor("C04.R6", 4)
 	r.NotCovered("both roles syncing against one store in any order across role changes (a second template change while a canary runs, status read from a stale cache); deletions issued by the canary replica set; that status.canary.nodes itself is valid (C15); namespace scoping of the lists (C12)")
 
@@ -77,6 +93,8 @@ func runC04(r *Run) {
 	c04CanaryCandidates(r, c)
 	c15Cap(r, "C04.R5", "C04.R7")
 	c04Labels(r, c)
+	c04ActivationOrigin(r, c)
+	c04LabelAlways(r, c)
 	c04LabelLoopExits(r)
 }
 
@@ -227,6 +245,7 @@ func c04Dispatch(r *Run, c *c04Ctx) {
 				covered[guard] = true
 			}
 			c.guardOf[cal] = append(c.guardOf[cal], guard)
+			c.sites = append(c.sites, c04Site{fn: fn, call: ci, cal: cal, guard: guard, params: params})
 			switch {
 			case !create && !del:
 				o := r.Check("C04.R1", construct, pos, shortFunc(fn), "a strategy function that plans no pod operation may run in any role", true, "role guard: "+guard)
@@ -658,6 +677,7 @@ func c04Labels(r *Run, c *c04Ctx) {
 			switch kind {
 			case "add":
 				nAdd++
+				c.addSites = append(c.addSites, ci)
 				// The labelled pod is judged where it is selected: at the call itself, or — when the pods
 				// are first collected into a list that is then ranged over (collect, then act) — at every
 				// append that feeds that list, with the facts of the function the append is in.
@@ -710,6 +730,7 @@ func c04Labels(r *Run, c *c04Ctx) {
 				r.Check("C04.R6", "canary label added: value", pos, shortFunc(fn), "the label is written with the canary label value", valOK, "")
 			case "remove":
 				nDel++
+				c.delSites = append(c.delSites, ci)
 				// pod is an element of the Items of a PodList listed in this function with both labels
 				var listObj ssa.Value
 				for _, sl := range sliceLoopsC(fn) {
@@ -946,4 +967,213 @@ func c04IsLabelsMap(f *ssa.Function, m ssa.Value) bool {
 		}
 	}
 	return false
+}
+
+// ---------------------------------------------------------------------------------------------
+// R9: the label clean-up window is anchored at the activation
+
+// c04ConditionWrite: ci (a call in fn) writes condition `ctype` with status `cstatus` on some status
+// object: directly through conditions.UpdateExtendedDaemonSetReplicaSetStatusCondition, or through a
+// repository function / closure that forwards its own parameters to that call.
+func c04ConditionWrite(ci ssa.CallInstruction, ctype, cstatus string) bool {
+	const upd = pkgERSCond + ".UpdateExtendedDaemonSetReplicaSetStatusCondition"
+	c := ci.Common()
+	if calleeName(c) == upd && len(c.Args) >= 4 {
+		t, ok1 := constString(c.Args[2])
+		st, ok2 := constString(c.Args[3])
+		return ok1 && ok2 && t == ctype && st == cstatus
+	}
+	g := repoCalleeC(c)
+	if g == nil {
+		return false
+	}
+	for _, in := range callsIn(g) {
+		ic := in.Common()
+		if calleeName(ic) != upd || len(ic.Args) < 4 {
+			continue
+		}
+		val := func(v ssa.Value) (string, bool) {
+			if s, ok := constString(v); ok {
+				return s, true
+			}
+			for i, p := range g.Params {
+				if denotesParamC(v, p) && i < len(c.Args) {
+					return constString(c.Args[i])
+				}
+			}
+			return "", false
+		}
+		t, ok1 := val(ic.Args[2])
+		st, ok2 := val(ic.Args[3])
+		if ok1 && ok2 && t == ctype && st == cstatus {
+			return true
+		}
+	}
+	return false
+}
+
+func c04ActivationOrigin(r *Run, c *c04Ctx) {
+	active, ok1 := r.Prog.constStr(pkgAPI, "ConditionTypeActive")
+	condFalse, ok2 := r.Prog.constStr(pkgCoreV1, "ConditionFalse")
+	if !ok1 || !ok2 {
+		r.Fatal("constants ConditionTypeActive / ConditionFalse not found")
+		return
+	}
+	isActiveRead := func(v ssa.Value) bool {
+		call, ok := v.(*ssa.Call)
+		if !ok || calleeName(&call.Call) != pkgERSCond+".GetExtendedDaemonSetReplicaSetStatusCondition" || len(call.Call.Args) < 2 {
+			return false
+		}
+		s, isC := constString(call.Call.Args[1])
+		return isC && s == active
+	}
+	windowed := false
+	for _, ci := range c.delSites {
+		fn := ci.Parent()
+		ff := r.Prog.factsOf(fn)
+		pos := r.Prog.Pos(ci.Pos())
+		var origin ssa.Value
+		for _, f := range ff.At(ci.Block()) {
+			cf, ok := decodeCmpC(f)
+			if !ok || cf.Op != "<" {
+				continue
+			}
+			for _, side := range []ssa.Value{cf.X, cf.Y} {
+				call, isCall := unwrap(side).(*ssa.Call)
+				if !isCall {
+					continue
+				}
+				switch calleeName(&call.Call) {
+				case "time.Since":
+					origin = call.Call.Args[0]
+				case "(time.Time).Sub":
+					origin = call.Call.Args[1]
+				}
+			}
+		}
+		if origin == nil {
+			o := r.Check("C04.R9", "label clean-up window", pos, shortFunc(fn), "the label clean-up is not limited to a time window", true, "no elapsed-time guard on the removal")
+			o.Trivial = true
+			continue
+		}
+		okOrigin := r.Prog.dependsOnIP(origin, isActiveRead)
+		r.Check("C04.R9", "label clean-up window origin", pos, shortFunc(fn),
+			"the elapsed time that limits the canary-label clean-up is measured from the Active condition of the replica set (the moment it became active)", okOrigin, "origin "+descValueC(origin))
+		if okOrigin {
+			windowed = true
+		}
+	}
+	if !windowed {
+		return
+	}
+	// every dispatch in a non-active role records Active=False, so that the next activation is a transition
+	for _, st := range c.sites {
+		if st.guard == "" || st.guard == "active" {
+			continue
+		}
+		found := false
+		for _, ci := range callsIn(st.fn) {
+			if ci != st.call && instrBeforeC(ci, st.call) && c04ConditionWrite(ci, active, condFalse) {
+				// in the same role branch: the write's block carries the same role guard (or dominates only this branch)
+				found = true
+			}
+		}
+		if !found { // or by the strategy function itself, before any return
+			for _, ci := range callsIn(st.cal) {
+				if !c04ConditionWrite(ci, active, condFalse) {
+					continue
+				}
+				all := true
+				for _, b := range st.cal.Blocks {
+					if isReturnBlock(b) && !ci.Block().Dominates(b) {
+						all = false
+					}
+				}
+				if all {
+					found = true
+				}
+			}
+		}
+		r.Check("C04.R9", "Active=False recorded in role "+st.guard, r.Prog.Pos(st.call.Pos()), shortFunc(st.fn),
+			"a replica set synced in a non-active role records the Active condition as False (otherwise a later activation is no transition and the label clean-up window starts in the past)", found,
+			"dispatch of "+shortFunc(st.cal))
+	}
+}
+
+// ---------------------------------------------------------------------------------------------
+// R10: the label pass is always reached in the canary role
+
+func c04LabelAlways(r *Run, c *c04Ctx) {
+	n := 0
+	for entry, guards := range c.guardOf {
+		isCanary := false
+		for _, g := range guards {
+			if g == "canary" {
+				isCanary = true
+			}
+		}
+		if !isCanary {
+			continue
+		}
+		reach := r.Prog.reachableFuncs(entry)
+		for _, add := range c.addSites {
+			holder := add.Parent()
+			if !reach[holder] {
+				continue
+			}
+			n++
+			// the instructions of the entry function through which the label pass is reached
+			var via []ssa.Instruction
+			if holder == entry {
+				via = append(via, add)
+			} else {
+				for _, ci := range callsIn(entry) {
+					if cal := staticCallee(ci.Common()); cal != nil && r.Prog.reachableFuncs(cal)[holder] {
+						via = append(via, ci)
+					}
+				}
+			}
+			errIdx := entry.Signature.Results().Len() - 1
+			good, detail := false, "the label pass is not called from the strategy function"
+			for _, v := range via {
+				// the pass may itself sit in a loop of the strategy function: then the loop must always be reached
+				anchor := v.Block()
+				for _, l := range sliceLoopsC(entry) {
+					if l.In[v.Block()] && l.Header.Dominates(anchor) {
+						anchor = l.Header
+					}
+				}
+				all := true
+				for _, b := range entry.Blocks {
+					ret := returnOf(b)
+					if ret == nil {
+						continue
+					}
+					if errIdx >= 0 && entry.Signature.Results().At(errIdx).Type().String() == "error" {
+						canBeNil := false
+						for _, o := range origins(ret.Results[errIdx]) {
+							if isNilConst(o) {
+								canBeNil = true
+							}
+						}
+						if !canBeNil {
+							continue // error returns are exempt
+						}
+					}
+					if !anchor.Dominates(b) {
+						all = false
+						detail = "the return at " + r.Prog.Pos(instrPos(ret)) + " can be reached without the label pass"
+					}
+				}
+				if all {
+					good = true
+				}
+			}
+			r.Check("C04.R10", "canary-label pass always reached", r.Prog.Pos(add.Pos()), shortFunc(entry),
+				"every non-error return of the strategy function dispatched for the canary role is preceded by the pass that labels the canary pods (new canary pods are created without the label and only get it on a later sync, paused or not)", good, detail)
+		}
+	}
+	if n == 0 {
+		r.Check("C04.R10", "canary-label pass always reached", "-", "-", "the canary label is added by code dispatched for the canary role", false, "no add site reachable from a canary-role strategy function")
+	}
 }
